@@ -211,6 +211,9 @@ func (self *visitorUserNode) OnBool(v bool) error {
 	if fieldDesc == nil {
 		return errNoField
 	}
+	if fieldDesc.Kind() != proto.BoolKind {
+		return newError(meta.ErrDismatchType, "param isn't boolType", nil)
+	}
 
 	// packed list no need to write tag
 	if !fieldDesc.Type().IsList() {
